@@ -258,7 +258,7 @@ def check_case(ctx, c, real, ans, shrink=True):
         if ia != ma:
             cc = c
             if shrink:
-                cc = shrink_case(ctx, c, lambda k: _mismatch(ctx, k, ia))
+                cc = shrink_mismatch(ctx, c, ia)
             sig = "accept-mismatch:impl-%s:%s:%s" % ("accepts" if ia else "rejects", cc.entry, class_string(cc.toks))
             ctx.fail(sig, "the parser %s a token sequence that the grammar (Lean model, proved = yield specification) %s"
                      % (("accepts", "does not derive") if ia else ("rejects", "derives")),
@@ -282,6 +282,48 @@ def check_case(ctx, c, real, ans, shrink=True):
     elif kind == "syntax" and real[1] > 0:
         ctx.nontrivial((c.entry, fl_key(c.flags), class_string(c.toks)))
     return ok
+
+
+def shrink_mismatch(ctx, c, impl_accepts, rounds=120):
+    """delta debugging with ONE driver call per round: all chunk deletions of the current size are tried at once"""
+    toks = list(c.toks)
+
+    def holding(cands):
+        keep = []
+        for cand in cands:
+            k = Case(cand, c.entry, c.flags, c.origin)
+            if (real_parse(k.text, k.entry, k.flags)[0] == "ok") == impl_accepts:
+                lt = lex(k.text)
+                if lt is not None:
+                    keep.append((cand, dict(op="parse", entry=c.entry, toks=lt, **flags_json(c.flags))))
+        if not keep:
+            return None
+        for (cand, _), a in zip(keep, ctx.driver.ask([r for _, r in keep])):
+            if ("ok" in a) != impl_accepts:
+                return cand
+        return None
+
+    progress = True
+    while progress and rounds > 0:
+        progress = False
+        n = len(toks)
+        sizes = sorted({max(1, n // d) for d in (2, 3, 4, 6, 8, 12, 16, 24, 32)} | set(range(1, min(n, 10))), reverse=True)
+        for size in sizes:
+            if rounds <= 0 or size >= len(toks) + 1:
+                continue
+            rounds -= 1
+            cands = [toks[:i] + toks[i + size:] for i in range(0, len(toks) - size + 1)]
+            got = holding(cands)
+            if got is not None:
+                toks = got
+                progress = True
+                break
+    names = [i for i, (cl, l) in enumerate(toks) if cl == "Name" and l != "a"]
+    for i in names:
+        got = holding([toks[:i] + [("Name", "a")] + toks[i + 1:]])
+        if got is not None:
+            toks = got
+    return Case(toks, c.entry, c.flags, c.origin)
 
 
 def _mismatch(ctx, k, impl_accepts):
